@@ -5,6 +5,9 @@ mod engine;
 mod grid;
 mod helpers;
 mod refmath;
+mod hub;
+mod scn_dist;
+mod scn_epoch;
 mod scn_incentive;
 mod scn_lair;
 mod scn_pair;
@@ -41,9 +44,11 @@ fn main() {
                 "C06" => checks::c06::run(&tier, seed),
                 "C07" => checks::c07::run(&tier, seed),
                 "C08" => checks::c08::run(&tier, seed),
+                "C09" => checks::c09::run(&tier, seed),
                 "C11" => checks::c11::run(&tier, seed),
                 "C12" => checks::c12::run(&tier, seed),
                 "C13" => checks::c13::run(&tier, seed),
+                "C20" => checks::c20::run(&tier, seed),
                 _ => {
                     eprintln!("unknown property {id}");
                     2
@@ -63,9 +68,11 @@ fn main() {
                 "C06" => checks::c06::replay(&doc),
                 "C07" => checks::c07::replay(&doc),
                 "C08" => checks::c08::replay(&doc),
+                "C09" => checks::c09::replay(&doc),
                 "C11" => checks::c11::replay(&doc),
                 "C12" => checks::c12::replay(&doc),
                 "C13" => checks::c13::replay(&doc),
+                "C20" => checks::c20::replay(&doc),
                 _ => {
                     eprintln!("unknown property in replay file");
                     std::process::exit(2)
